@@ -81,6 +81,12 @@ std::vector<long long> to_vec(const S& s) {
 }
 
 inline size_t prod(const std::vector<size_t>& s) { size_t p = 1; for (auto e : s) p *= e; return p; }
+// element count if it is small enough to enumerate, SIZE_MAX otherwise (garbage extents such as (size_t)-1 must not be walked)
+inline size_t safe_total(const std::vector<size_t>& s) {
+    size_t p = 1;
+    for (auto e : s) { if (e > ((size_t)1 << 22)) return SIZE_MAX; p *= e; if (p > ((size_t)1 << 22)) return SIZE_MAX; }
+    return p;
+}
 
 // odometer over a shape (independent of the library's ndindex)
 struct odometer {
@@ -291,11 +297,11 @@ void observe_fields(W& w, const X& x) {
         auto shp = shape_of(x);
         w.key("shape").beg_arr(); for (auto e : shp) w.num(e); w.end_arr();
         w.key("elems").beg_arr();
-        size_t total = prod(shp);
-        if (total <= (size_t)1 << 22) {
+        if (safe_total(shp) != SIZE_MAX) {
             for (odometer o(shp); !o.done; o.next()) w.num((T)read_elem(x, o.idx));
         }
         w.end_arr();
+        if (safe_total(shp) == SIZE_MAX) w.key("huge").boolean(true);
     } else if constexpr (meta::is_tuple_v<U>) {
         w.key("hv").boolean(true); w.key("kind").str("tup");
         w.key("items").beg_arr();
